@@ -747,8 +747,283 @@ def _run_boolseq(cfg) -> Dict[str, Any]:
     return {"outcome": "boolseq:" + "+".join(sorted(outs)), "violations": viol[:12], "counters": counters, "helper": sname}
 
 
+# ---------------------------------------------------------------------------
+# the same error answer over every carrier: memory streams are not the only inbound path
+# ---------------------------------------------------------------------------
+CARRIERS = ["stdio", "http-json-body", "http-sse-body", "sse-event-stream", "sse-immediate-json"]
+
+
+def _run_carrier(cfg) -> Dict[str, Any]:
+    import json
+
+    import httpx
+    from chuk_mcp.protocol.messages.send_message import send_message
+
+    from .. import seams
+    from ..seams_http import ScriptedStream, patched_httpx
+    from ..vloop import new_loop
+
+    carrier = CARRIERS[cfg["carrier"]]
+    code = cfg["code"]
+    shapes = [sh for sh in ({"all": SHAPES, "few": [(1, 0), (2, 0), (2, 3), (3, 0), (5, 0)]}[cfg["shapes"]]) if representable(sh, "parsed")]
+    # texts no JSON encoder puts on a real wire are kept to the in-memory parts
+    shapes = [sh for sh in shapes if _wire_safe(error_obj(code, sh))]
+    loop = new_loop(horizon=600)
+    q = seams.Quiescence(loop)
+    results: List[tuple] = []
+    state: Dict[str, Any] = {"err": None}
+
+    def response_for(req_id):
+        return {"jsonrpc": "2.0", "id": req_id, "error": state["err"]}
+
+    async def calls(read, write):
+        for sh in shapes:
+            state["err"] = error_obj(code, sh)
+            try:
+                r = await send_message(read, write, "tools/list", {"a": None}, timeout=3.0)
+                results.append((sh, "returned", r))
+            except BaseException as e:  # noqa: BLE001
+                if isinstance(e, (KeyboardInterrupt, SystemExit)):
+                    raise
+                hd._strip_tracebacks(e)
+                results.append((sh, "raised", e))
+            await q.settle()
+
+    async def main():
+        if carrier == "stdio":
+            from chuk_mcp.transports.stdio.stdio_client import StdioClient
+
+            proc = seams.FakeProcess()
+
+            def on_stdin(data: bytes):
+                for raw in data.split(b"\n"):
+                    if raw.strip():
+                        msg = json.loads(raw)
+                        if msg.get("method") and msg.get("id") is not None:
+                            proc.stdout.feed((json.dumps(response_for(msg["id"])) + "\n").encode())
+
+            proc.on_stdin = on_stdin
+            with seams.patched_open_process(lambda cmd, kw: proc):
+                async with StdioClient(seams.stdio_params()) as client:
+                    read, write = client.get_streams()
+                    await calls(read, write)
+            return
+        if carrier.startswith("http-"):
+            from chuk_mcp.transports.http.http_client import http_client
+            from chuk_mcp.transports.http.parameters import StreamableHTTPParameters
+
+            def handler(rec):
+                body = rec.json()
+                if not isinstance(body, dict) or body.get("id") is None:
+                    return httpx.Response(202, content=b"")
+                payload = json.dumps(response_for(body["id"]))
+                if carrier == "http-json-body":
+                    return httpx.Response(200, headers={"content-type": "application/json"}, content=payload.encode())
+                return httpx.Response(200, headers={"content-type": "text/event-stream"},
+                                      content=("event: message\ndata: " + payload + "\n\n").encode())
+
+            with patched_httpx(handler):
+                async with http_client(StreamableHTTPParameters(url="http://mcp.test/mcp", timeout=5.0)) as (read, write):
+                    await calls(read, write)
+            return
+        from chuk_mcp.transports.sse.parameters import SSEParameters
+        from chuk_mcp.transports.sse.sse_client import sse_client
+
+        stream = ScriptedStream()
+        stream.feed(b"event: endpoint\ndata: /messages/?session_id=abc\n\n")
+
+        def handler(rec):
+            if rec.method == "GET":
+                return httpx.Response(200, headers={"content-type": "text/event-stream"}, stream=stream)
+            body = rec.json()
+            if not isinstance(body, dict) or body.get("id") is None:
+                return httpx.Response(202, content=b"")
+            payload = json.dumps(response_for(body["id"]))
+            if carrier == "sse-immediate-json":
+                return httpx.Response(200, headers={"content-type": "application/json"}, content=payload.encode())
+            stream.feed(("event: message\ndata: " + payload + "\n\n").encode())
+            return httpx.Response(202, content=b"")
+
+        with patched_httpx(handler):
+            async with sse_client(SSEParameters(url="http://sse.test", timeout=5.0)) as (read, write):
+                await calls(read, write)
+
+    with sched.patched_uuid():
+        status, val = loop.run_main(main())
+    errors = loop.collect_errors()
+    loop.abandon()
+    viol: List[dict] = []
+    counters = {"carrier_calls": 0}
+    if status != "ok":
+        viol.append({"sig": {"class": "did-not-finish", "carrier": carrier, "status": status},
+                     "msg": f"{status}: {val!r}; carrier={carrier} code={code}"})
+        return {"outcome": "carrier:" + status, "violations": viol, "counters": counters}
+    outs = set()
+    for sh, kind, x in results:
+        counters["carrier_calls"] += 1
+        o = {"status": "ok", "errors": [], "leftover": 0, "outcome": kind, ("value" if kind == "returned" else "exc"): x}
+        sub: List[dict] = []
+        outs.add(_judge_raise(o, code, sh, "send_message", sub, f"carrier={carrier} code={code} shape={shape_name(sh)}"))
+        for v in sub:
+            v["sig"] = {**v["sig"], "carrier": carrier, "message": MESSAGES[sh[0]][0] if sh[0] < N_PLAIN_MESSAGES else "special"}
+        viol.extend(sub[:3])
+    if errors:
+        viol.append({"sig": {"class": "loop-error", "carrier": carrier}, "msg": f"{errors[:2]}; carrier={carrier} code={code}"})
+    return {"outcome": f"carrier:{carrier}:" + "+".join(sorted(outs)), "violations": viol[:12], "counters": counters, "code": code}
+
+
+def _wire_safe(x: Any) -> bool:
+    import json
+
+    try:
+        json.dumps(x).encode("utf-8")
+        json.dumps(x, ensure_ascii=False).encode("utf-8")
+        return True
+    except Exception:  # noqa: BLE001
+        return False
+
+
+# ---------------------------------------------------------------------------
+# two calls of one helper on ONE connection: request ids, and a late answer to the first call
+# ---------------------------------------------------------------------------
+def _two_calls(func, kw, plan):
+    """plan(i, request) -> list of incoming objects for call i's request (may be []); after call 1 returned,
+    plan('late', request1) objects are put on the read stream and stay unread until call 2.
+    Returns (status, [(outcome, value)], [request wires], errors)."""
+    import asyncio
+    import math
+
+    import anyio
+
+    from .. import seams
+    from ..vloop import new_loop
+
+    loop = new_loop(horizon=120)
+    q = seams.Quiescence(loop)
+    reqs: List[Any] = []
+    outs: List[Any] = []
+
+    with sched.patched_uuid():
+        async def main():
+            send_w, recv_w = anyio.create_memory_object_stream(math.inf)
+            send_r, recv_r = anyio.create_memory_object_stream(math.inf)
+            state = {"call": 0}
+
+            async def responder():
+                async for msg in recv_w:
+                    w = hd.dump(msg)
+                    if isinstance(w, dict) and "method" in w and w.get("id") is not None:
+                        reqs.append((state["call"], w))
+                        for obj in plan(state["call"], w) or []:
+                            send_r.send_nowait(obj)
+
+            rt = asyncio.ensure_future(responder())
+            params = inspect.signature(func).parameters
+            for i in (0, 1):
+                state["call"] = i
+                call = dict(kw)
+                call["read_stream"], call["write_stream"] = recv_r, send_w
+                if "timeout" in params:
+                    call["timeout"] = 0.3 if i == 0 else 2.0
+                try:
+                    outs.append(("returned", await func(**call)))
+                except BaseException as e:  # noqa: BLE001
+                    if isinstance(e, (KeyboardInterrupt, SystemExit)):
+                        raise
+                    hd._strip_tracebacks(e)
+                    outs.append(("raised", e))
+                await q.settle()
+                if i == 0:
+                    first = [w for (c, w) in reqs if c == 0]
+                    if first:
+                        for obj in plan("late", first[0]) or []:
+                            send_r.send_nowait(obj)
+                    await q.settle()
+            send_w.close()
+            try:
+                await asyncio.wait_for(rt, 5)
+            except BaseException:  # noqa: BLE001
+                pass
+
+        status, val = loop.run_main(main())
+        errors = loop.collect_errors()
+        loop.abandon()
+    return status, val, outs, reqs, errors
+
+
+def _run_twice(cfg) -> Dict[str, Any]:
+    name = cfg["helper"]
+    func = hd.resolve(name)
+    sname = hd.short(name)
+    viol: List[dict] = []
+    counters = {"twice_scenarios": 0, "twice_calls": 0}
+    outs_seen = set()
+    try:
+        kw = hd.build_kwargs(func, hd.Profile())
+    except hd.Uncallable as e:
+        raise core.HarnessError(f"discovered helper {name} cannot be called: {e}") from None
+    is_bool = sname in BOOL_HELPERS
+    for code in cfg["codes"]:
+        # call 1: never answered in time; its (successful) answer arrives afterwards and stays unread.  call 2: answered with the error.
+        def plan(i, req, code=code):
+            if i == 0:
+                return []
+            if i == "late":
+                return [hd.incoming({"jsonrpc": "2.0", "id": req["id"], "result": hd.result_for(func, req)})]
+            return [hd.incoming({"jsonrpc": "2.0", "id": req["id"], "error": {"code": code, "message": MSG}})]
+
+        status, val, outs, reqs, errors = _two_calls(func, kw, plan)
+        counters["twice_scenarios"] += 1
+        counters["twice_calls"] += len(outs)
+        ctx = (f"helper={sname}: call 1 (timeout 0.3 s) gets no answer in time, its successful answer arrives afterwards; "
+               f"call 2 on the same streams is answered with error {code}")
+        scen = {"via": sname, "scenario": "late-answer-to-an-earlier-call"}
+        if status != "ok" or len(outs) != 2:
+            viol.append({"sig": {"class": "did-not-finish", **scen, "status": status}, "msg": f"{status}: {val!r}; {ctx}"})
+            continue
+        ids = [w["id"] for (_c, w) in reqs]
+        if len(ids) != len(set(map(repr, ids))):
+            viol.append({"sig": {"class": "request-id-reused", "via": sname},
+                         "msg": f"two calls wrote requests with the SAME id ({len(ids)} requests, {len(set(map(repr, ids)))} distinct ids; "
+                                f"the value is left out: an id fixed at import time differs from process to process); {ctx}"})
+        per_call = [sum(1 for (c, _w) in reqs if c == i) for i in (0, 1)]
+        if per_call != [1, 1]:
+            viol.append({"sig": {"class": "request-count", **scen, "requests": min(max(per_call), 3)},
+                         "msg": f"requests written per call {per_call}; {ctx}"})
+        # call 1: a timeout (boolean helpers: False)
+        k1, v1 = outs[0]
+        if is_bool:
+            if k1 != "returned" or v1 is not False:
+                viol.append({"sig": {"class": "bool-helper-did-not-report-false", **scen, "call": 1},
+                             "msg": f"call 1 {k1} {v1!r} although nothing arrived before its deadline; {ctx}"})
+        elif not (k1 == "raised" and isinstance(v1, TimeoutError)):
+            viol.append({"sig": {"class": "unanswered-call-did-not-time-out", **scen},
+                         "msg": f"call 1 {k1} {v1!r} although nothing arrived before its deadline; {ctx}"})
+        # call 2: its own answer is the error
+        k2, v2 = outs[1]
+        o = {"status": "ok", "errors": [], "leftover": 0, "outcome": k2, ("value" if k2 == "returned" else "exc"): v2}
+        if is_bool:
+            if k2 != "returned" or v2 is not False:
+                viol.append({"sig": {"class": "bool-helper-did-not-report-false", **scen, "call": 2},
+                             "msg": f"call 2 {k2} {v2!r} although ITS request was answered with error {code}; {ctx}"})
+            outs_seen.add(str(v2) if k2 == "returned" else "raised")
+        else:
+            sub: List[dict] = []
+            outs_seen.add(_judge_raise(o, code, (2, 0), sname, sub, ctx))
+            for v in sub:
+                v["sig"] = {**v["sig"], "scenario": "late-answer-to-an-earlier-call"}
+            viol.extend(sub)
+        if errors:
+            viol.append({"sig": {"class": "loop-error", **scen}, "msg": f"{errors[:2]}; {ctx}"})
+    return {"outcome": "twice:" + "+".join(sorted(outs_seen)), "violations": viol[:12], "counters": counters, "helper": sname}
+
+
 def _run_part(ctl: explorer.Ctl, cfg: Dict[str, Any]) -> Dict[str, Any]:
     part = cfg["part"]
+    if part == "carrier":
+        return _run_carrier(cfg)
+    if part == "twice":
+        return _run_twice(cfg)
     if part == "boolseq":
         return _run_boolseq(cfg)
     if part == "pair":
@@ -851,6 +1126,17 @@ def run(tier: str, only=None) -> core.Result:
     samples += _pick("ii-two-calls-sharing-params", pcfgs)
     sched.debug_pass(res, "ii-two-calls-sharing-params", RUN, pcfgs, every=17)
 
+    # (ii'') the same error answers through the real inbound paths of the three transports
+    # byte carriers: the quantifier's 64-bit values; an integer outside [-2^63, 2^64-1] is not a 64-bit code (recorded as an assumption)
+    ccodes = [c for c in (boundary_codes() if tier == "quick" else codes) if -(2 ** 63) <= c <= 2 ** 64 - 1]
+    named = set(PERMANENT) | set(RETRYABLE) | {0, -1}
+    ccfgs = [{"part": "carrier", "carrier": ci, "code": c, "shapes": ("all" if (c in named or tier == "thorough" and c % 50 == 0) else "few")}
+             for ci in range(len(CARRIERS)) for c in ccodes]
+    out_c = explorer.explore(RUN, ccfgs)
+    sched.absorb(res, "ii-every-carrier", RUN, out_c, ccfgs)
+    samples += _pick("ii-every-carrier", ccfgs)
+    sched.debug_pass(res, "ii-every-carrier", RUN, ccfgs, every=(9 if tier == "quick" else 199))
+
     # (iii) every typed request helper
     hcodes = boundary_codes() if tier == "quick" else codes
     cfgs = []
@@ -877,6 +1163,14 @@ def run(tier: str, only=None) -> core.Result:
     out = explorer.explore(RUN, cfgs)
     sched.absorb(res, "iii-helpers-error-answer", RUN, out, cfgs)
     sched.debug_pass(res, "iii-helpers-error-answer", RUN, cfgs, every=(29 if tier == "quick" else 211))
+    # every helper twice on one connection: distinct request ids, and a late answer to call 1 must not decide call 2
+    tcodes = sorted(set(PERMANENT) | set(RETRYABLE) | {0, -1, 1, -32099, 2 ** 63})
+    tcfgs = [{"part": "twice", "helper": h["name"], "codes": (block if hd.short(h["name"]) in BOOL_HELPERS else block[:2])}
+             for h in req_helpers for bi, block in enumerate(_chunks(tcodes, 5)) if hd.short(h["name"]) in BOOL_HELPERS or bi == 0]
+    out_t = explorer.explore(RUN, tcfgs)
+    sched.absorb(res, "iii-two-calls-on-one-connection", RUN, out_t, tcfgs)
+    samples += _pick("iii-two-calls-on-one-connection", tcfgs)
+    sched.debug_pass(res, "iii-two-calls-on-one-connection", RUN, tcfgs, every=3)
     # boolean helpers: the peer's answers differ per request
     bcodes = sorted(set(PERMANENT) | set(RETRYABLE) | {0, -1, 1, -32099, 2 ** 63})
     bcfgs = [{"part": "boolseq", "helper": h["name"], "codes": block, "with_result_first": i == 0}
@@ -910,7 +1204,8 @@ def run(tier: str, only=None) -> core.Result:
     cov["errors_module_api"] = api
     cov["call_order_pairs"] = cnt.get("order_pairs", 0)
     cov["two_call_scenarios"] = cnt.get("pair_scenarios", 0)
-    calls = cnt.get("boolseq_calls", 0) + cnt.get("pair_calls", 0) + cnt.get("order_sm_calls", 0) + cnt.get("sm_calls", 0) + cnt.get("helper_calls", 0) + cnt.get("baseline_calls", 0) + cnt.get("initpv_calls", 0)
+    cov["carriers"] = CARRIERS
+    calls = cnt.get("carrier_calls", 0) + cnt.get("twice_calls", 0) + cnt.get("boolseq_calls", 0) + cnt.get("pair_calls", 0) + cnt.get("order_sm_calls", 0) + cnt.get("sm_calls", 0) + cnt.get("helper_calls", 0) + cnt.get("baseline_calls", 0) + cnt.get("initpv_calls", 0)
     cov["evaluations"] = cnt.get("fn_evaluations", 0) + calls
     cov["driven_calls"] = calls
     cov["function_evaluations"] = cnt.get("fn_evaluations", 0)
@@ -936,7 +1231,12 @@ def run(tier: str, only=None) -> core.Result:
         "{parse_message, JSONRPCMessage(...)}; two send_message calls on separate stream pairs, in flight together (answers in both orders) or one "
         "after the other, with one params dict object shared between them or separate dicts (3 initial dicts incl. one with _meta), progress "
         "callbacks on none/one/both, answered with error x error over 4 codes or error + result: each call must raise its own classified error / "
-        "return its own result; (iii) every discovered request helper x argument profiles "
+        "return its own result; send_message through the REAL inbound paths of every carrier - stdio (scripted child), Streamable HTTP with a JSON body and with an "
+        "SSE body, legacy SSE with the answer on the event stream and as an immediate JSON body (scripted httpx layer) - x "
+        + ("boundary codes" if tier == "quick" else "every code") + " x every wire-representable shape for the named codes (5 shapes incl. the EMPTY message for the others): "
+        "class, code and message must be the same as over memory streams; every helper called twice on one connection (call 1 times out, its successful answer arrives "
+        "late and stays unread, call 2 is answered with an error over 19 codes for the boolean helpers): the two calls must write different request ids and call 2 must "
+        "report ITS answer; (iii) every discovered request helper x argument profiles "
         "{required only, all optionals, second Union arm} x "
         + ("boundary codes (named codes +-1, range edges, 0, +-1, +-200, 64-bit extremes)" if tier == "quick" else "every code of the grid")
         + " x shape; ping / resources_subscribe / resources_unsubscribe x every code of the grid in both tiers (quick: 2 shapes per code), and against a peer whose answers differ per request (first answer error over 19 codes or result; a "
@@ -950,6 +1250,10 @@ def run(tier: str, only=None) -> core.Result:
         "the documented permanent/retryable sets are the ones pinned in this file (JSON-RPC 2.0 names + errors.py docstrings)",
         "error objects without 'message' are not accepted by parse_message; they reach send_message only through the unified JSONRPCMessage constructor",
         "error codes are JSON integers; bool / float / string codes are outside the quantifier",
+        "error messages are JSON strings (JSON-RPC 2.0): the empty string is a message and is in the grid; 0 / false / [] in place of the message are not error objects and are outside the statement",
+        "over the byte carriers only codes that fit 64 bits ([-2^63, 2^64-1]) are driven: -2^63-1 is parsed as a float by the orjson-backed readers "
+        "(stdio, SSE bodies) and stays an integer through httpx's json(); integers beyond 64 bits are outside the quantifier ('64-bit values') and remain in the in-memory parts",
+        "shapes whose text cannot be encoded as UTF-8 (unpaired surrogates) cannot travel over a byte carrier and are kept to the in-memory parts",
         "send_initialize documents a third exception: a -32602 error whose message mentions 'protocol version' is translated to "
         "VersionMismatchError (recorded under recorded_not_judged); for every other code such a text must still give the classified exception",
         "a helper annotated '-> bool' other than ping/subscribe/unsubscribe may either return False or raise the classified error",
